@@ -255,6 +255,28 @@ theorem reject_bad_config_exit3 (spec : List Opt) (ini : List (Str × CfgVal)) (
   obtain ⟨e, he⟩ := reject_bad_config spec ini dodo env argv hwf hini k c o hm hf hbad
   rw [he]; rfl
 
+/-- **through DoitMain, the guard**: `process_args` hands the words to the parsers unchanged exactly when none of them
+    is a `name=value` word; under that guard `roundtrip_total` / `precedence` / `reject_*` speak about what
+    `DoitMain.run` parses -/
+theorem main_words_unchanged (argv : List Str) (h : NoVarWords argv = true) : stripVars argv = .ok argv :=
+  stripVars_id argv h
+
+/-- F-C16c (open): outside the guard a well-formed command line loses an option value.  `--long a=b` for a string
+    option: alone the parser reads `a=b`; through `process_args` the value is taken for a command-line variable, the
+    option is left without its value (parse error) — or silently takes the next word: `-l a=b x` gives `x` -/
+theorem var_word_steals_option_value :
+    observe [['l']] (pipeline demoSpec [] [] (fun _ => none) [['-','l'], ['a','=','b']])
+      = some ([some (.l [['d'], ['a','=','b']])], []) ∧
+    (stripVars [['-','l'], ['a','=','b']]).toOption = some [['-','l']] ∧
+    observe [['l']] (pipeline demoSpec [] [] (fun _ => none) [['-','l']]) = none ∧
+    (stripVars [['-','l'], ['a','=','b'], ['x']]).toOption = some [['-','l'], ['x']] ∧
+    observe [['l']] (pipeline demoSpec [] [] (fun _ => none) [['-','l'], ['x']]) = some ([some (.l [['d'], ['x']])], []) ∧
+    (stripVars [['-','l'], []]).toOption = some [['-','l'], []] := by decide
+
+/-- F-C16d (fixed in /repo, 0ab6253): an empty word was `arg[0]` on `''` in `process_args`: IndexError traceback -/
+theorem pinned_empty_word_crashes :
+    (stripVarsP true [['-','l'], []]).toBool = false ∧ (stripVarsP false [['-','l'], []]).toBool = true := by decide
+
 /-- F-C16b (fixed in /repo, e98fc2c): with the command constructed outside the `try`, `num = abc` in the command's
     config section ended as an uncaught exception (exit status 1), not as exit code 3 -/
 theorem pinned_config_error_escapes :
